@@ -161,7 +161,7 @@ func declSrc(d *Decl, q Qual, imps map[string]bool, noter func(*Type, map[string
 func keyField(d *Decl) *Field {
 	for i := range d.Fields {
 		f := &d.Fields[i]
-		if f.Embedded {
+		if f.Embedded || f.Name == "_" {
 			continue
 		}
 		if f.Type.Kind == Basic {
@@ -190,6 +190,13 @@ func userMethods(d *Decl) string {
 		fmt.Fprintf(&sb, "func (a %[1]s) Equal(b %[1]s) bool {\n\treturn %[2]s\n}\n\n", d.Name, eqExpr)
 	case "derive":
 		fmt.Fprintf(&sb, "func (a *%[1]s) Equal(b *%[1]s) bool {\n\treturn deriveEqualM%[1]s(a, b)\n}\n\n", d.Name)
+	case "ptrval":
+		// receiver and parameter need not agree in pointer-ness
+		fmt.Fprintf(&sb, "func (a *%[1]s) Equal(b %[1]s) bool {\n\tif a == nil {\n\t\treturn false\n\t}\n\treturn %[2]s\n}\n\n", d.Name, eqExpr)
+	case "valptr":
+		fmt.Fprintf(&sb, "func (a %[1]s) Equal(b *%[1]s) bool {\n\tif b == nil {\n\t\treturn false\n\t}\n\treturn %[2]s\n}\n\n", d.Name, eqExpr)
+	case "iface":
+		fmt.Fprintf(&sb, "func (a *%[1]s) Equal(x interface{}) bool {\n\tb, ok := x.(*%[1]s)\n\tif !ok {\n\t\treturn false\n\t}\n\tif a == nil || b == nil {\n\t\treturn a == nil && b == nil\n\t}\n\treturn %[2]s\n}\n\n", d.Name, eqExpr)
 	}
 	switch d.UserCompare {
 	case "ptr":
